@@ -135,6 +135,8 @@ def generate(rng, n, tier):
                     yield {"cls": name, "src": src, "clauses": cl, "frame": fr}
             else:
                 yield {"cls": name, "src": src, "clauses": cl}
+                if "orderby" in cl:
+                    yield {"cls": name, "src": src, "clauses": cl, "ob_same": True}
                 if "filter" in cl:
                     # a FILTER member that is an OR: the members are conjoined as criteria (the OR keeps its brackets)
                     yield {"cls": name, "src": src, "clauses": cl, "filter_or": True}
@@ -220,7 +222,8 @@ def build(case, parts=False):
     if "over_empty" in cl:
         chain += ".over()"
     if "orderby" in cl:
-        chain += ".orderby(F('o1'), order=Order.desc).orderby(F('o2'))"
+        # (with `ob_same` both calls give the same direction: each call still adds its key)
+        chain += ".orderby(F('o1')).orderby(F('o2'))" if case.get("ob_same") else ".orderby(F('o1'), order=Order.desc).orderby(F('o2'))"
     if "frame" in cl:
         kind, lo, hi = case["frame"]
         chain += ".%s(%s%s)" % (kind, edge_src(lo), "" if hi is None else ", " + edge_src(hi))
@@ -269,7 +272,7 @@ def reference(obj, case):
         if "over" in cl:
             parts.append('PARTITION BY "p1","p2"')
         if "orderby" in cl:
-            parts.append('ORDER BY "o1" DESC,"o2"')
+            parts.append('ORDER BY "o1","o2"' if case.get("ob_same") else 'ORDER BY "o1" DESC,"o2"')
         body = " ".join(parts)
         if "frame" in cl:
             kind, lo, hi = case["frame"]
@@ -298,7 +301,7 @@ def examine(case):
     except AttributeError as e:
         # rows()/range() twice etc. are not generated; any other construction failure is a harness problem
         raise
-    res.key = struct_hash([case["cls"], cl, case.get("frame") if "frame" in cl else None, case.get("nest"), case.get("stmt"), case.get("given_args"), bool(case.get("filter_or"))])
+    res.key = struct_hash([case["cls"], cl, case.get("frame") if "frame" in cl else None, case.get("nest"), case.get("stmt"), case.get("given_args"), bool(case.get("filter_or")), bool(case.get("ob_same"))])
     res.nontrivial = bool(obj.args) or bool(cl)
     res.tags = ["cls=" + case["cls"].split(".")[0], "nclauses=%d" % len(cl)] + ["has=" + c for c in cl]
     kw = {"quote_char": '"'}
